@@ -7,6 +7,7 @@ package main
 
 import (
 	"fmt"
+	"go/constant"
 	"go/token"
 	"go/types"
 
@@ -434,4 +435,143 @@ func c19r6(c *Ctx) {
 		c.Ok(rule, "stream#no-deadline-left-behind", "no I/O entry point of the stream leaves a socket deadline armed", rwc.Pos())
 	}
 	c.MinCount(rule, "stream I/O entry points examined", n, 4)
+}
+
+func init() {
+	register("C06", c06r12)
+	register("C08", c08r7)
+}
+
+func isZeroNumConst(v ssa.Value) bool {
+	k, ok := v.(*ssa.Const)
+	if !ok || k.Value == nil {
+		return false
+	}
+	switch k.Value.Kind() {
+	case constant.Int, constant.Float:
+		return constant.Sign(k.Value) == 0
+	}
+	return false
+}
+
+// C06-R12: renewing a leased session replaces its expiry by now + lease.
+func c06r12(c *Ctx) {
+	const rule = "C06-R12"
+	c.Doc(rule, "in SessionEntry.RenewLease every path on which the lease is not zero passes a store of a value computed from time.Now() and the lease into SessionEntry.expiration (here or in a helper), with no further condition in between: after a resumption the session lives for one lease from now, so a session left idle for longer than its lease counts as expired at the next lookup even when the duration granted by the original handshake has not run out")
+	fn := c.needFn(rule, "security", "(*SessionEntry).RenewLease")
+	lease := c.needField(rule, "security", "SessionEntry", "lease")
+	exp := c.needField(rule, "security", "SessionEntry", "expiration")
+	if fn == nil || lease == nil || exp == nil {
+		return
+	}
+	offEdges := func(g *ssa.Function) []Edge {
+		var off []Edge
+		for _, b := range g.Blocks {
+			ifi := blockIf(b)
+			if ifi == nil {
+				continue
+			}
+			a := condAtom(ifi.Cond)
+			op := a.Op
+			var other ssa.Value
+			if mentionsField(a.X, lease) {
+				other = a.Y
+			} else if a.Y != nil && mentionsField(a.Y, lease) {
+				other = a.X
+				switch op {
+				case token.GTR:
+					op = token.LSS
+				case token.LSS:
+					op = token.GTR
+				case token.GEQ:
+					op = token.LEQ
+				case token.LEQ:
+					op = token.GEQ
+				}
+			} else {
+				continue
+			}
+			if other == nil || !isZeroNumConst(other) {
+				continue
+			}
+			zeroOnTrue, zeroOnFalse := false, false
+			switch op {
+			case token.EQL, token.LEQ: // lease == 0, lease <= 0
+				zeroOnTrue = true
+			case token.NEQ, token.GTR: // lease != 0, lease > 0
+				zeroOnFalse = true
+			}
+			if a.Neg {
+				zeroOnTrue, zeroOnFalse = zeroOnFalse, zeroOnTrue
+			}
+			if zeroOnTrue {
+				off = append(off, Edge{b, 0})
+			}
+			if zeroOnFalse {
+				off = append(off, Edge{b, 1})
+			}
+		}
+		return off
+	}
+	isStore := storeHit(exp)
+	hit := func(in ssa.Instruction) bool {
+		st, ok := in.(*ssa.Store)
+		return ok && isStore(in) && mentions(st.Val, isClockCall)
+	}
+	n := len(offEdges(fn))
+	cuts := c.satisfyingCuts(fn, hit, offEdges, 3, nil)
+	c.mustPassReturns(rule, fn, c.returnsOf(fn), cuts, "a store of now+lease into SessionEntry.expiration (given a non-zero lease)")
+	c.MinCount(rule, "tests of the lease against zero in RenewLease", n, 1)
+}
+
+// C08-R7: the old-ClassAd string decoder is a fallback behind the parser, never a shortcut in front of it.
+func c08r7(c *Ctx) {
+	const rule = "C08-R7"
+	c.Doc(rule, "decodeOldClassAdString is called only from parseAndInsertExpression (and helpers only it calls), and every path from the entry of parseAndInsertExpression to such a call - followed through same-module helpers - passes the failure edge of classad.ParseExpr: a value the full parser accepts is always given the expression the parser assigns, the old-style reading is used only for texts the parser rejects")
+	fn := c.needFn(rule, "message", "parseAndInsertExpression")
+	dec := c.needFn(rule, "message", "decodeOldClassAdString")
+	if fn == nil || dec == nil {
+		return
+	}
+	isParse := func(call ssa.CallInstruction) bool {
+		o := calleeObj(call)
+		return o != nil && o.Pkg() != nil && o.Pkg().Name() == "classad" && o.Name() == "ParseExpr"
+	}
+	// who may call the decoder
+	var got []*ssa.Function
+	poss := map[*ssa.Function]token.Pos{}
+	for _, cs := range c.callSites(dec.Object()) {
+		got = append(got, cs.Fn)
+		poss[cs.Fn] = cs.Call.Pos()
+	}
+	c.whoMayDeep(rule, "call decodeOldClassAdString", got, poss, fnSet(fn))
+	failEdges := map[*ssa.Function]map[Edge]bool{}
+	parses := 0
+	search := &cxSearch{
+		target: func(fr *cxFrame, in ssa.Instruction, _ *ssa.BasicBlock) bool {
+			call, ok := in.(ssa.CallInstruction)
+			return ok && calleeFn(call) == dec
+		},
+		cutEdge: func(fr *cxFrame, e Edge) bool {
+			m, ok := failEdges[fr.fn]
+			if !ok {
+				m = map[Edge]bool{}
+				allInstrs(fr.fn, func(_ *ssa.BasicBlock, _ int, in ssa.Instruction) {
+					if call, ok := in.(*ssa.Call); ok && isParse(call) {
+						parses++
+						_, fail, _ := callErrEdges(fr.fn, call)
+						for _, f := range fail {
+							m[f] = true
+						}
+					}
+				})
+				failEdges[fr.fn] = m
+			}
+			return m[e]
+		},
+	}
+	p := search.find(cxEntry(cxTop(fn)))
+	c.Check(p == nil, rule, fnName(fn)+"#old-string-decoder-behind-parser", "the old-style decoder is reached only after classad.ParseExpr failed", "decodeOldClassAdString is reachable without classad.ParseExpr having rejected the value: a shortcut in front of the parser can assign a value the parser would not", fn.Pos(), c.describePath(p)...)
+	c.MinCount(rule, "call sites of decodeOldClassAdString", len(got), 1)
+	c.MinCount(rule, "classad.ParseExpr calls on the way", parses, 1)
 }
